@@ -280,9 +280,18 @@ pub fn fraccion_renovable_acs_nrb(ep: &EnergyPerformance) -> Result<f32, EpbdErr
         .filter(|c| c.is_aux() && c.has_service(Service::ACS))
         .map(HasValues::values_sum)
         .sum::<f32>();
+    // El consumo eléctrico de ACS sin auxiliares se obtiene directamente de los componentes de consumo
+    // y no por diferencia, que deja residuos de redondeo proporcionales al tamaño del edificio
+    let dhw_el_use_no_aux_an = ep
+        .components
+        .data
+        .iter()
+        .filter(|c| c.is_used() && c.has_service(Service::ACS) && c.has_carrier(ELECTRICIDAD))
+        .map(HasValues::values_sum)
+        .sum::<f32>();
     dhw_used_by_cr_no_aux_or_low_scop
         .entry(Carrier::ELECTRICIDAD)
-        .and_modify(|e| *e -= dhw_aux_use_an);
+        .and_modify(|e| *e = dhw_el_use_no_aux_an);
     if dhw_used_by_cr_no_aux_or_low_scop
         .get(&Carrier::ELECTRICIDAD)
         .map(|v| v.abs() < 0.01)
